@@ -103,7 +103,8 @@ def exec_stmt(self: Interp, s, st: State):
         key = frame_key(self)
         if key in self.reg["stmts"]:
             text = ast.unparse(s).replace(" ", "").replace("\n", "")
-            scs = [sc for sc in self.reg["stmts"][key] if sc.match.replace(" ", "") == text]
+            scs = [sc for sc in self.reg["stmts"][key] if sc.match.replace(" ", "") == text
+                   and getattr(sc, "facet", None) == self.facet]
     if not scs:
         return m(s, st)
     before = st.fork()
@@ -711,13 +712,16 @@ def x_For(self: Interp, s: ast.For, st: State):
     def check_inv(state, kval, kind, label):
         state.env[kv] = kval
         for i, src in enumerate(inv.inv):
+            if not self.clause_due(src):
+                continue
             g = self.contract_truth(src, state)
             self.oblige(state, g, "I", f"{label}[loop{lid}#{i}]", s)
 
     def assume_inv(state, kval):
         state.env[kv] = kval
         for src in inv.inv:
-            state.assume(self.contract_truth(src, state))
+            if self.clause_on(src):
+                state.assume(self.contract_truth(src, state))
 
     # 1. invariant holds on entry
     check_inv(st, 0, "I", "inv-init")
@@ -769,7 +773,8 @@ def x_While(self: Interp, s: ast.While, st: State):
     def check_inv(state, kval, label):
         state.env[kv] = kval
         for i, src in enumerate(inv.inv):
-            self.oblige(state, self.contract_truth(src, state), "I", f"{label}[loop{lid}#{i}]", s)
+            if self.clause_due(src):
+                self.oblige(state, self.contract_truth(src, state), "I", f"{label}[loop{lid}#{i}]", s)
 
     check_inv(st, 0, "inv-init")
 
@@ -786,7 +791,8 @@ def x_While(self: Interp, s: ast.While, st: State):
     h.assume(kz >= 0)
     h.env[kv] = kz
     for src in inv.inv:
-        h.assume(self.contract_truth(src, h))
+        if self.clause_on(src):
+            h.assume(self.contract_truth(src, h))
     c = self.truth(self.eval(s.test, h), h)
     exit_state = h.fork()
     exit_state.assume(znot(c))
